@@ -184,12 +184,27 @@ class Ctx:
         return 1 if self.violations else 0
 
     # ------------------------------------------------------------ Coq
-    def coq_build(self):
-        """Full .vo build of the development (incremental, behind a lock). Returns (ok, log)."""
-        ok, log = coq_make(clean=False)
+    def coq_build(self, targets=None):
+        """Full .vo build of the development (incremental, behind a lock). Returns (ok, log).
+
+        ok is about the closure of this property's own files only (Props/<pid>.vo, Run/eval_*.vo
+        named in targets): a sibling property whose proof file is broken does not take this one down."""
+        targets = targets or ["Props/%s.vo" % self.pid]
+        ok, log = coq_make(clean=False, targets=targets)
         if not ok:
             self.log("coq build FAILED")
         return ok, log
+
+    def prove(self, targets=None):
+        """The standard first step of every check: build, fresh coqc of Props/<pid>.v, report."""
+        ok_build, log = self.coq_build(targets)
+        props_ok, pout = (False, log)
+        if ok_build:
+            props_ok, pout = self.coq_props()
+        if not props_ok:
+            self.violation({"kind": "theorem-no-longer-checks", "file": "coq/Props/%s.v" % self.pid, "log": pout[-1500:]}, found_input=False)
+        self.trusted_base.append("Coq 8.16.1 kernel + vm_compute (no native_compute)")
+        return props_ok
 
     def coq_props(self, pid=None, deps_ok=True):
         """Fresh coqc of Props/<pid>.v; fills obligations/discharged/trusted_base.
@@ -290,8 +305,11 @@ def coq_project_files():
     return out
 
 
-def coq_make(clean=False, timeout=3000):
-    """(Re)generate _CoqProject + Makefile and run a full .vo build under a lock."""
+def coq_make(clean=False, timeout=3000, targets=None):
+    """(Re)generate _CoqProject + Makefile and run a full .vo build under a lock.
+
+    With targets: the whole development is built with -k first (result ignored), then the named
+    targets are (re)made and only their status is returned."""
     lockf = open(os.path.join(COQ, ".lock"), "w")
     fcntl.flock(lockf, fcntl.LOCK_EX)
     try:
@@ -305,6 +323,8 @@ def coq_make(clean=False, timeout=3000):
         if clean:
             sh(["make", "-f", "Makefile.coq", "clean"], cwd=COQ, timeout=300)
         rc, out, err = sh(["make", "-f", "Makefile.coq", "-j%d" % NCPU, "-k"], cwd=COQ, timeout=timeout)
+        if targets and rc != 0:
+            rc, out, err = sh(["make", "-f", "Makefile.coq", "-j%d" % NCPU] + list(targets), cwd=COQ, timeout=timeout)
         return rc == 0, out[-6000:] + err[-6000:]
     finally:
         fcntl.flock(lockf, fcntl.LOCK_UN)
